@@ -43,10 +43,18 @@ import (
 	"sync"
 	"testing"
 
+	deadlock "github.com/sasha-s/go-deadlock"
+
 	ev "verif/engine/evidence"
 )
 
-func TestMain(m *testing.M) { ev.Main(m) }
+func TestMain(m *testing.M) {
+	// go-deadlock is a debugging aid of the repository's mutexes: its lock-order detector keys on a goroutine id
+	// that its goid dependency cannot read under go1.26 (every goroutine is "goroutine 0"), which makes it report
+	// inconsistent lock order between unrelated Subprocess objects and os.Exit(2) the harness. Plain mutexes instead.
+	deadlock.Opts.Disable = true
+	ev.Main(m)
+}
 
 // ---- recording logger ---------------------------------------------------------------------------
 
